@@ -8,7 +8,7 @@ requests (one line = one complete case; numbers are float64 bit patterns `f<uint
   validate <design>                                   → ok | err:algo | err:other:<PythonClass>
   run <design> dim=<n> src=<n> tau=<f,…|_> fv=<f,…|_> fu=<f,…|_> steps=<f,…|_>
         → ok p=<precision> unused=<n> ind=<id>:<f,…>;<id>:<f,…>…    (final ages, float64 bits)
-        | err:algo | err:other:<PythonClass> | fuel-exhausted
+        | err:algo | err:other:<PythonClass> | fuel-exhausted | no-draws (accepted random design sent without its draws)
   ages t0=<f> fu=<f> steps=<f,…|_>                    → ages=<f,…> unused=<n> | fuel-exhausted
   round p=<n> ages=<f,…|_>                            → keys=<int,…> ages=<f,…> | err:other:…
   precision ms=<f>                                    → p=<n>
@@ -56,7 +56,7 @@ def parseVT (s : String) : Option VisitType :=
 
 def parseFeat (s : String) : Option Feat :=
   if s == "n" then some .notStr
-  else if s.startsWith "s" then Feat.str <$> hexDecode (s.drop 1).toString
+  else if s.startsWith "s" then (fun n => Feat.str n n.trimAscii.isEmpty) <$> hexDecode (s.drop 1).toString
   else none
 
 def parseFeatures (s : String) : Option Features :=
@@ -142,7 +142,7 @@ def handle (line : String) : String :=
       | none => some "fuel-exhausted"
       | some (.error e) => some (fmtErr e)
       | some (.ok (p, out, unused)) =>
-        if tau.length ≠ n && d.visitType == VisitType.random then none else
+        if tau.length ≠ n && d.visitType == VisitType.random then some "no-draws" else
         some s!"ok p={p} unused={unused} ind={fmtList (fmtIndiv p) out ";"}").getD "bad-request"
   | "ages" :: args =>
     (do
